@@ -593,11 +593,12 @@ func callBroker(m protocol.BrokerMessage, c protocol.Cluster) (res string) {
 // ---------------------------------------------------------------- transport-level scenarios
 
 type scenario struct {
-	r    *rand.Rand
-	c    *fakecluster.Cluster
-	tr   *kafka.Transport
-	boot int32
-	ttl  time.Duration
+	restricted bool // MetadataTopics is set: topics outside it never enter the cache
+	r          *rand.Rand
+	c          *fakecluster.Cluster
+	tr         *kafka.Transport
+	boot       int32
+	ttl        time.Duration
 }
 
 func randomVersions(r *rand.Rand, b *fakecluster.Broker) {
@@ -671,6 +672,18 @@ func newScenario(r *rand.Rand, ttl time.Duration) *scenario {
 	}
 	s := &scenario{r: r, c: c, boot: int32(ids[r.Intn(nb)]), ttl: ttl}
 	s.tr = &kafka.Transport{Dial: c.Dial, MetadataTTL: ttl, DialTimeout: 2 * time.Second, ClientID: "c12"}
+	if r.Intn(4) == 0 { // a transport configured to cache only some topics (possibly one that does not exist)
+		s.restricted = true
+		for n := range c.Topics {
+			if r.Intn(2) == 0 {
+				s.tr.MetadataTopics = append(s.tr.MetadataTopics, n)
+			}
+		}
+		sort.Strings(s.tr.MetadataTopics)
+		if r.Intn(3) == 0 || len(s.tr.MetadataTopics) == 0 {
+			s.tr.MetadataTopics = append(s.tr.MetadataTopics, "ghost")
+		}
+	}
 	return s
 }
 
@@ -999,7 +1012,8 @@ func runScenario(seed int64, steps int) {
 				fmt.Fprintln(os.Stderr, "scenario: refresh after mutation not observed")
 				return
 			}
-		case r.Intn(25) == 0:
+		case r.Intn(25) == 0 && !s.restricted:
+			// (with MetadataTopics set a created topic never enters the cache and roundTrip waits for it until the context ends)
 			s.createTopic()
 		default:
 			s.send(s.randomSpec())
